@@ -97,6 +97,7 @@ class World:
                     else:
                         side = getattr(bc, SIDES[2 * ax + 1])
                         side.periodic = not side.periodic
+                        side.c = u          # content never returns to an earlier state (the model's stamps are fresh on every edit; two bare toggles in a row would restore it)
                         return "none", None
                 if how == "assign-c":
                     side.c = u
@@ -329,6 +330,14 @@ def search_c09(rng, n, kinds=("cart1", "cart2", "cyl2", "pol2", "sph1", "cart3",
                     indep = np.array_equal(np.asarray(v._value), before[0], equal_nan=True) and (before[1] is None or v.BCs._state_token() == before[1]) \
                         and not np.shares_memory(np.asarray(w._value), np.asarray(v._value)) and w.BCs is not v.BCs
                     S.check(bool(eq and indep), "C09:copy-independent", "copy() is not equal to / independent of its original", {**inp, "step": k}, None, None)
+                if op[0] == "updateValue" and out != "invalid" and op[1] != op[2]:
+                    # update_value transfers values, it must not tie the two variables together: an in-place edit of the source afterwards
+                    v = W.vars[op[1]]; w = W.vars[op[2]]
+                    held = np.array(v._value, copy=True)
+                    shared = np.shares_memory(np.asarray(v._value), np.asarray(w._value))
+                    w.value[(0,) * mc.dim] = W.uniq()
+                    S.check(bool(not shared and np.array_equal(np.asarray(v._value), held, equal_nan=True)), "C09:update-value-independent",
+                            "after a.update_value(b) an in-place edit of b changes a (or they share memory)", {**inp, "step": k}, None, None)
             except Exception as ex:
                 S.check(False, "C09:exception", repr(ex), {**inp, "step": k, "op": op_to_str(op)}, repr(ex), "no exception")
                 break
